@@ -1,0 +1,44 @@
+// Copyright 2023 Google LLC
+//
+// Licensed under the Apache License, Version 2.0 (the "License");
+// you may not use this file except in compliance with the License.
+// You may obtain a copy of the License at
+//
+//     https://www.apache.org/licenses/LICENSE-2.0
+//
+// Unless required by applicable law or agreed to in writing, software
+// distributed under the License is distributed on an "AS IS" BASIS,
+// WITHOUT WARRANTIES OR CONDITIONS OF ANY KIND, either express or implied.
+// See the License for the specific language governing permissions and
+// limitations under the License.
+
+//! Verification-only scheduling hook, compiled only with the `verif-sim` feature.
+//!
+//! A deterministic simulator that drives several compilations on several threads
+//! installs a callback here; the compiler stages call [`yield_point`] at the head of
+//! their per-declaration loops, which lets the simulator switch threads *inside* a
+//! stage under a schedule it chose. Without a registered callback, and without the
+//! feature, nothing happens.
+
+use std::sync::atomic::{AtomicPtr, Ordering};
+
+static HOOK: AtomicPtr<()> = AtomicPtr::new(std::ptr::null_mut());
+
+/// Install (or remove) the callback invoked at every yield point.
+pub fn set_hook(hook: Option<fn(&'static str)>) {
+    let ptr = match hook {
+        Some(f) => f as *mut (),
+        None => std::ptr::null_mut(),
+    };
+    HOOK.store(ptr, Ordering::SeqCst);
+}
+
+/// Called by the compiler stages; `site` names the call site.
+pub fn yield_point(site: &'static str) {
+    let ptr = HOOK.load(Ordering::SeqCst);
+    if !ptr.is_null() {
+        // SAFETY: the pointer was stored from a `fn(&'static str)` in `set_hook`.
+        let f: fn(&'static str) = unsafe { std::mem::transmute(ptr) };
+        f(site);
+    }
+}
